@@ -173,17 +173,19 @@ def execute(plan):
 
     def check(step, op):
       advance(0.06)
-      for _ in range(6):
+      for _round in range(8):
+        for _ in range(40):
+          # quiescence: every watch event has been delivered (one handler greenlet serves all watchers, also those of
+          # server sets that were stopped meanwhile, and each of its reads takes the plan's latency)
+          if zk.evq.empty() and not zk.busy:
+            break
+          advance(0.03)
+        advance(0.02)
         if loop.now() >= slow_until[0]:
           break
-        advance(slow_until[0] - loop.now() + 0.05)      # a consumer callback is still blocking
-      for _ in range(40):
-        # quiescence: every watch event has been delivered (one handler greenlet serves all watchers, also those of
-        # server sets that were stopped meanwhile, and each of its reads takes the plan's latency)
-        if zk.evq.empty() and not zk.busy:
-          break
-        advance(0.03)
-      advance(0.02)
+        # a consumer callback is still blocking (it may only have started while the events were being served):
+        # wait it out, then let whatever queued up behind it be delivered
+        advance(slow_until[0] - loop.now() + 0.05)
       where = '(step %d: %r)' % (step, op)
       held = set()
       for kind, name in log:
